@@ -319,8 +319,9 @@ def run(F, chk):
         chk.instance(R6, ok=not bad, sample={"fn": fn["name"], "counts_before_changing_table": not bad})
         for n in bad[:1]:
             chk.violation("R7.6", "C07/R7.6:%s" % fn["name"], where(fn, n),
-                          "%s changes blockTypeIndices before counting the remaining users of the old type: the saved type table names "
-                          "a type for a block that is of another type" % fn["name"])
+                          "%s changes blockTypeIndices %s: the saved type table names a type for a block that is of another type" % (
+                              fn["name"], "between counting the users of the old type and dropping its name" if n.get("short") == "erase"
+                              else "before counting the remaining users of the old type"))
     chk.floor(R6, 2)
 
     # ------------------------------------------------------------------ R7.7 length prefixes cannot wrap
